@@ -786,6 +786,25 @@ def check_serde_with_pairs(ctx, P, rule="E9.serde"):
         else:
             ctx.ob(rule + ".blsserde", "%s/%s" % (im, what), False, "BlsSerde impl has only one of serialize_%s / deserialize_%s" % (what, what))
     ctx.floor(rule + ".blsserde", "BlsSerde method pairs", len(impls), 10)
+    # the `serde(with = ..)` modules are pure delegations: whatever they return is the BlsSerde method of the same name
+    # applied to the caller's own (de)serializer (a module that reads or rewrites the input itself - trimming, re-encoding,
+    # a format branch of its own - is a second wire form that nothing else in the crate writes)
+    nmod = 0
+    for k, f in sorted(P.fns.items()):
+        m = _re.match(r"^(scalar|signature|public_key|public_key_share|secret_key_share)::(serialize|deserialize)$", k)
+        if not m:
+            continue
+        nmod += 1
+        what = {"scalar": "scalar", "signature": "signature", "public_key": "public_key", "public_key_share": "public_key_share", "secret_key_share": "scalar_share"}[m.group(1)]
+        want = "BlsSerde::%s_%s" % (m.group(2), what)
+        r = strip_sites(evaluate(f).ret)
+        alts = list(r.a[0]) if r.op == "phi" else [r]
+        ok = bool(alts)
+        for a in alts:
+            last = B.peel(a.a[1][-1]) if a.op == "call" and a.a[1] else None
+            ok = ok and a.op == "call" and B.cname(a) == want and last is not None and last.op == "param"
+        ctx.ob(rule + ".with-module", k, ok, "%s returns %s(.., <its own %s>) and nothing else: %s" % (k, want, "serializer" if m.group(2) == "serialize" else "deserializer", [show(a, 3) for a in alts][:3]), where=where(f))
+    ctx.floor(rule + ".with-module", "serde(with) module functions", nmod, 8)
 
 
 def _mod(t):
